@@ -24,6 +24,7 @@ import (
 	"fmt"
 	"go/ast"
 	"go/token"
+	"reflect"
 	"sort"
 
 	"github.com/uber-go/gopatch/internal/data"
@@ -52,7 +53,9 @@ func (c *compiler) compileChange(achange *parse.Change) *Change {
 
 	ldots := mc.dots
 	rdots := rc.dots
-	if err := connectDots(c.fset, ldots, rdots, rc.dotAssoc); err != nil {
+	err := connectDots(c.fset, ldots, rdots, rc.dotAssoc)
+	reconnectDots(c.fset, ldots, mc.dotKinds, rdots, rc.dotKinds, rc.dotAssoc)
+	if err != nil {
 		// Without its partner a "..." written in the "+" section would
 		// silently stand for nothing. The "..." implied around a list
 		// of statements is another matter: when the "-" section is a
@@ -94,6 +97,50 @@ func (c *Change) Replace(d data.Data, cl Changelog) (*ast.File, error) {
 // for the file that is as if the change had not matched.
 func (c *Change) Apply(d data.Data, cl Changelog) (_ *ast.File, modified bool, _ error) {
 	return c.replacer.replace(d, cl)
+}
+
+// reconnectDots corrects associations between a "..." of the "+" section and
+// one of the "-" section that stand in lists of different types: the "..." of
+// '+bar(...)' written above '-foo(...)' in a list of statements is nearest to
+// the "..." implied in front of the statements, and would stand for those
+// statements (or, silently, for nothing if there are none) instead of the
+// arguments of foo. If the "-" section has a "..." in a list of the same
+// type, the nearest one in front of it, or else the first one behind it, is
+// its partner.
+func reconnectDots(fset *token.FileSet, lhs []token.Pos, lkinds map[token.Pos]reflect.Type, rhs []token.Pos, rkinds map[token.Pos]reflect.Type, conns map[token.Pos]token.Pos) {
+	before := func(a, b token.Pos) bool {
+		pa, pb := fset.Position(a), fset.Position(b)
+		return pa.Line < pb.Line || pa.Line == pb.Line && pa.Column <= pb.Column
+	}
+	for _, r := range rhs {
+		kind, ok := rkinds[r]
+		if !ok {
+			continue
+		}
+		if l, ok := conns[r]; ok && lkinds[l] == kind {
+			continue
+		}
+
+		var prev, next token.Pos
+		for _, l := range lhs {
+			if lkinds[l] != kind {
+				continue
+			}
+			if before(l, r) {
+				if !prev.IsValid() || before(prev, l) {
+					prev = l
+				}
+			} else if !next.IsValid() || before(l, next) {
+				next = l
+			}
+		}
+		switch {
+		case prev.IsValid():
+			conns[r] = prev
+		case next.IsValid():
+			conns[r] = next
+		}
+	}
 }
 
 func connectDots(fset *token.FileSet, lhs, rhs []token.Pos, conns map[token.Pos]token.Pos) error {
